@@ -2,8 +2,8 @@
    Spec/TextSpec.v is the documented semantics (ascii, wide, nocase, fullword, xor); the extracted
    [text_matches] is compared with the real scanner on every run (checks/c01.py), and [cover_ok] is
    evaluated on the atoms decoded from every compiled image. Proofs: Proofs/TextProofs.v. *)
-From Coq Require Import List NArith Sorting.Sorted Lia.
-From YV Require Import Base.Bytes Spec.TextSpec Model.Arena Model.Image Model.AC Model.TextAtoms Model.Verify Proofs.TextProofs Proofs.ACProofs Proofs.VerifyProofs.
+From Coq Require Import List Arith NArith Sorting.Sorted Lia.
+From YV Require Import Base.Bytes Spec.TextSpec Model.Arena Model.Image Model.AC Model.TextAtoms Model.Verify Spec.Base64Spec Proofs.TextProofs Proofs.ACProofs Proofs.VerifyProofs Proofs.Base64Proofs.
 Import ListNotations.
 
 (* the reference the implementation is compared with reports each offset once, in ascending order,
@@ -71,6 +71,13 @@ Theorem scan_text_complete : forall cr sidx fl s m buf o lk,
 Proof. exact scan_string_complete_proof. Qed.
 Print Assumptions scan_text_complete.
 
+(* together: exactly the documented offsets, in the documented order *)
+Theorem scan_text_offsets_exact : forall cr sidx fl s m buf,
+  ac_cert cr = true -> all_bytes buf = true -> text_certs cr sidx fl s m = true -> complete_certs cr sidx fl s m = true ->
+  map fst (scan_string cr sidx fl s None buf) = map fst (text_matches s m buf).
+Proof. exact scan_offsets_exact_proof. Qed.
+Print Assumptions scan_text_offsets_exact.
+
 (* the scan that the check runs (it carries the automaton state along, like the C loop) is the scan of the theorems *)
 Theorem scan_incremental_is_scan : forall cr sidx fl s fixed buf,
   scan_string_inc cr sidx fl s fixed buf = scan_string cr sidx fl s fixed buf.
@@ -97,7 +104,43 @@ Proof.
 Qed.
 Print Assumptions literal_verifier_sound_without_key_certificate_refuted.
 
-(* not proved (correspondence only): base64 / base64wide strings (not modelled); that the compare loops of scan.c are the
+(* ---- base64 / base64wide strings (Spec/Base64Spec.v).  The documented meaning - "strings that have been base64 encoded" as
+   part of a larger text - is context independence: the three searched forms (b64_variant, as base64.c builds them) are exactly
+   characters of the encoding that do not depend on what surrounds the string. *)
+Theorem b64_context_independent : forall s P Q i k,
+  (i < 3)%nat -> length P = (3 * k + i)%nat -> all_bytes s = true -> all_bytes P = true -> all_bytes Q = true ->
+  forall j, (b64_leading i <= j)%nat ->
+            (j < data_chars (i + length s) - (if Nat.eqb (pad_of (i + length s)) 0 then 0 else 1))%nat ->
+  sextet_at (P ++ s ++ Q) (4 * k + j) = sextet_at (repeat 65%N i ++ s) j.
+Proof. exact b64_context_independent_proof. Qed.
+Print Assumptions b64_context_independent.
+
+(* every text that contains s has, in its base64 encoding (any alphabet), the form for |prefix| mod 3 at the place of s *)
+Theorem encoded_text_contains_variant : forall alpha s P Q i k,
+  (i < 3)%nat -> length P = (3 * k + i)%nat -> s <> [] ->
+  all_bytes s = true -> all_bytes P = true -> all_bytes Q = true ->
+  let v := b64_variant alpha s i in
+  slice (b64_encode alpha (P ++ s ++ Q)) (4 * k + b64_leading i) (length v) = v.
+Proof. exact encoded_text_contains_variant_proof. Qed.
+Print Assumptions encoded_text_contains_variant.
+
+(* the executable reference lists exactly the places where one of the forms (or its wide version) stands *)
+Theorem b64_matches_exact : forall alpha s plain wide buf,
+  (forall o len, In len (b64_occs_at alpha s plain wide buf o) <->
+     exists v, In v (b64_variants alpha s plain wide) /\ v <> [] /\ slice buf o (length v) = v /\ len = nlen v) /\
+  (forall o l, In (o, l) (b64_matches alpha s plain wide buf) <-> (o < length buf)%nat /\ l = b64_occs_at alpha s plain wide buf o /\ l <> []).
+Proof. exact b64_matches_exact_proof. Qed.
+Print Assumptions b64_matches_exact.
+
+Example b64_documented_example :   (* docs/writingrules.rst: "This program cannot" *)
+  let s := map N.of_nat [84;104;105;115;32;112;114;111;103;114;97;109;32;99;97;110;110;111;116]%nat in
+  map (b64_variant default_alphabet s) [1; 2]%nat =
+  [map N.of_nat [82;111;97;88;77;103;99;72;74;118;90;51;74;104;98;83;66;106;89;87;53;117;98;51]%nat;    (* RoaXMgcHJvZ3JhbSBjYW5ub3 *)
+   map N.of_nat [85;97;71;108;122;73;72;66;121;98;50;100;121;89;87;48;103;89;50;70;117;98;109;57;48]%nat]  (* UaGlzIHByb2dyYW0gY2Fubm90 *)
+  /\ b64_encode default_alphabet (map N.of_nat [77;97]%nat) = map N.of_nat [84;87;69;61]%nat.   (* RFC 4648: "Ma" -> "TWE=" *)
+Proof. vm_compute. split; reflexivity. Qed.
+
+(* not proved (correspondence only): that the regular expression built by base64.c from the forms matches exactly them; that the compare loops of scan.c are the
    functions match_ascii / match_wide of the model (checks/c01.py compares whole scans: offset, length and key must be EQUAL
    to the model's, not just admissible). *)
 
